@@ -46,7 +46,8 @@ SEMANTICS
     `or` (false) / `and` (true); the divisor is then `x`, `-d`, `abs(d)`, `d ** n`, a non-zero literal or a product of
     such.  The evaluator below ignores this analysis and tests every divisor, so a wrong elision shows up in the
     cross-check as `TranslatorBug`.
-    A division that would have to be tested inside the right operand of `and` / `or` is refused.
+    The same facts flow from the earlier operands of an `and` / `or` into the later ones (`y != 0 and x / y > 1`).
+    A division that would still have to be tested inside the right operand of `and` / `or` is refused.
   * Locals.  Re-assignment is Lean `let` shadowing.  An `if` whose branches neither return nor divide (unchecked)
     becomes a `let` of the merged values of the locals it assigns (`let x := if c then … else x`); a local
     defined on one side only is refused.  Any other `if` is translated by continuing each branch with the
@@ -698,8 +699,12 @@ class Translator:
             others = []
             self.short_circuit += 1
             try:
-                for v in node.values[1:]:
-                    others.append(self.expr(v, env, facts))
+                # an operand is evaluated only when the previous ones were all true (`and`) / all false (`or`): what
+                # they say about non-zero locals holds there (`y != 0 and x / y > 1`)
+                known = facts
+                for prev, v in zip(node.values, node.values[1:]):
+                    known = known | self.facts_of(prev, env, isinstance(node.op, ast.And))
+                    others.append(self.expr(v, env, known))
             finally:
                 self.short_circuit -= 1
             out = first
